@@ -150,6 +150,7 @@ static std::string errKind(const std::string& what, bool encoding)
   if (starts("Label too long")) return encoding ? "encLabel" : "labelTooLong";
   if (starts("Domain name too long")) return encoding ? "encName" : "nameTooLong";
   if (starts("Domain name not terminated")) return "unterminated";
+  if (starts("Too many compression pointers")) return "tooManyJumps";
   if (starts("Malicious")) return "malicious";
   if (starts("RDATA too short")) return "rdShort";
   if (starts("RDATA name offset beyond")) return "rdBeyond";
@@ -285,6 +286,27 @@ static std::string stepInner(const std::vector<std::string>& t, bool& encoding)
     Exact e(m);
     return showResult(DnsMessage::parse(e.p, e.n));
   }
+  if (t.size() == 3 && t[0] == "timed")
+  {
+    // cost monitor (not part of the lockstep): best-of-N wall time of DnsMessage::parse on one message, in microseconds
+    Bytes m;
+    unsigned long long reps;
+    if (!vh::ofHex(t[2], m) || !vh::parseNat(t[1], reps) || reps == 0 || reps > 20) return "bad-op";
+    Exact e(m);
+    long long best = -1;
+    std::string verdict = "ok";
+    for (unsigned long long i = 0; i < reps; ++i)
+    {
+      struct timespec a, b;
+      clock_gettime(CLOCK_REALTIME, &a);
+      try { auto r = DnsMessage::parse(e.p, e.n); verdict = "ok " + std::to_string(r.answers.size()); }
+      catch (const DnsParseException& ex) { verdict = "err " + errKind(ex.what(), false); }
+      clock_gettime(CLOCK_REALTIME, &b);
+      long long us = (b.tv_sec - a.tv_sec) * 1000000LL + (b.tv_nsec - a.tv_nsec) / 1000;
+      if (best < 0 || us < best) best = us;
+    }
+    return "timed " + std::to_string(best) + " " + verdict;
+  }
   if (t.size() == 3 && t[0] == "name")
   {
     Bytes m;
@@ -317,7 +339,7 @@ static std::string stepInner(const std::vector<std::string>& t, bool& encoding)
   if (t.size() >= 3 && t[0] == "query" && (t.size() - 3) % 3 == 0)
   {
     unsigned long long id;
-    if ((t[1] != "0" && t[1] != "1") || !vh::parseNat(t[2], id) || id == 0 || id > 65535) return "bad-op";
+    if ((t[1] != "0" && t[1] != "1") || !vh::parseNat(t[2], id) || id > 65535) return "bad-op";
     std::vector<DnsQuestion> qs;
     for (std::size_t i = 3; i < t.size(); i += 3)
     {
@@ -326,7 +348,14 @@ static std::string stepInner(const std::vector<std::string>& t, bool& encoding)
       qs.push_back(q);
     }
     encoding = true;
-    return vh::toHex(DnsMessage::buildQuery(qs, t[1] == "1", static_cast<std::uint16_t>(id)));
+    auto w = DnsMessage::buildQuery(qs, t[1] == "1", static_cast<std::uint16_t>(id));
+    if (id == 0)
+    {
+      // the code draws an id from generateQueryId(): never 0; both sides print `xxxx` for it
+      if (w.size() < 2 || (w[0] == 0 && w[1] == 0)) return "generated-id-is-zero";
+      return "xxxx" + vh::toHex(w.data() + 2, w.size() - 2);
+    }
+    return vh::toHex(w);
   }
   if (t.size() >= 2 && t[0] == "c")
   {
@@ -398,7 +427,7 @@ static std::string stepInner(const std::vector<std::string>& t, bool& encoding)
     {
       waitParked();
       long want = g_tickets.fetch_add(1) + 1;
-      for (int i = 0; i < 400000 && g_done.load() < want; ++i) usleep(25);
+      for (int i = 0; i < 1200000 && g_done.load() < want; ++i) usleep(25);   // >= 30 s of real time
       if (g_done.load() < want) return "purge-stuck";
       return "ok" + cacheTail();
     }
